@@ -445,8 +445,10 @@ func runHistory(t *rapid.T, maxInc []int) {
 			w.closeSession(s)
 		}
 	}()
-	w.newSession(t)
-	staleQuery, sawMulti, polls := false, false, 0
+	if rapid.IntRange(0, 3).Draw(t, "startWithSession") != 0 {
+		w.newSession(t)
+	}
+	staleQuery, sawMulti, polls, noSessionChange := false, false, 0, false
 	t.Repeat(map[string]func(*rapid.T){
 		"append": func(t *rapid.T) {
 			if len(w.truth) > 40 {
@@ -456,11 +458,17 @@ func runHistory(t *rapid.T, maxInc []int) {
 			if k > 1 {
 				sawMulti = true
 			}
+			if len(w.sessions) == 0 {
+				noSessionChange = true
+			}
 			w.appendMsgs(k)
 		},
 		"expunge": func(t *rapid.T) {
 			if len(w.truth) == 0 {
 				t.Skip("empty")
+			}
+			if len(w.sessions) == 0 {
+				noSessionChange = true
 			}
 			w.expunge(rapid.IntRange(1, len(w.truth)).Draw(t, "seq"))
 		},
@@ -490,14 +498,20 @@ func runHistory(t *rapid.T, maxInc []int) {
 			w.log("NewSession -> %s", s.name)
 		},
 		"closesession": func(t *rapid.T) {
-			if len(w.sessions) <= 1 {
-				t.Skip("keep one session")
+			// down to no session at all: the mailbox keeps changing while
+			// nobody has it selected, and sessions opened later start from
+			// whatever the tracker then believes
+			if len(w.sessions) == 0 {
+				t.Skip("no session")
 			}
 			s := rapid.SampledFrom(w.sessions).Draw(t, "which")
 			w.log("%s.Close()", s.name)
 			w.closeSession(s)
 		},
 		"poll": func(t *rapid.T) {
+			if len(w.sessions) == 0 {
+				t.Skip("no session")
+			}
 			s := rapid.SampledFrom(w.sessions).Draw(t, "which")
 			allow := rapid.Bool().Draw(t, "allowExpunge")
 			var inject func()
@@ -565,6 +579,9 @@ func runHistory(t *rapid.T, maxInc []int) {
 	}
 	if sawMulti {
 		ev.Class("append-increment>1")
+	}
+	if noSessionChange {
+		ev.Class("mailbox-changed-while-no-session")
 	}
 	ev.Class(fmt.Sprintf("sessions-at-end:%d", len(w.sessions)))
 	ev.ClassN("polls", int64(polls))
